@@ -547,9 +547,9 @@ func (f *followingQuery) Select(t iterator) NodeNavigator {
 								Input:     &contextQuery{},
 								Predicate: f.Predicate,
 							}
-							t.Current().MoveTo(node)
 						}
-						if node := q.Select(t); node != nil {
+						// q starts from node; the caller's context stays where it is.
+						if node := q.Select(iteratorFunc(func() NodeNavigator { return node })); node != nil {
 							f.posit = q.posit
 							return node
 						}
@@ -638,9 +638,9 @@ func (p *precedingQuery) Select(t iterator) NodeNavigator {
 								Input:     &contextQuery{},
 								Predicate: p.Predicate,
 							}
-							t.Current().MoveTo(node)
 						}
-						if node := q.Select(t); node != nil {
+						// q starts from node; the caller's context stays where it is.
+						if node := q.Select(iteratorFunc(func() NodeNavigator { return node })); node != nil {
 							p.posit++
 							return node
 						}
@@ -798,6 +798,9 @@ func (f *filterQuery) Select(t iterator) NodeNavigator {
 	if f.positmap == nil {
 		f.positmap = make(map[int]int)
 	}
+	// The predicate is evaluated with the candidate as context node; the
+	// context of the caller is put back afterwards.
+	root := t.Current().Copy()
 	for {
 
 		node := f.Input.Select(t)
@@ -807,7 +810,9 @@ func (f *filterQuery) Select(t iterator) NodeNavigator {
 		node = node.Copy()
 
 		t.Current().MoveTo(node)
-		if f.do(t) {
+		ok := f.do(t)
+		t.Current().MoveTo(root)
+		if ok {
 			// fix https://github.com/antchfx/htmlquery/issues/26
 			// Calculate and keep the each of matching node's position in the same depth.
 			level := getNodeDepth(f.Input)
@@ -1327,11 +1332,15 @@ func (m *mergeQuery) Select(t iterator) NodeNavigator {
 			}
 			m.Child.Evaluate(t)
 			root = root.Copy()
+			// Child is evaluated with root as context node; the context of
+			// the caller is put back afterwards.
+			saved := t.Current().Copy()
 			t.Current().MoveTo(root)
 			var list []NodeNavigator
 			for node := m.Child.Select(t); node != nil; node = m.Child.Select(t) {
 				list = append(list, node.Copy())
 			}
+			t.Current().MoveTo(saved)
 			i := 0
 			m.iterator = func() NodeNavigator {
 				if i >= len(list) {
